@@ -1,5 +1,7 @@
 import FV.Drv.Common
 import FV.Model.RectSearch
+import FV.Model.RectSat
+import FV.Model.RectIO
 /- op table for the rectilinear shape search model (property C08).  Coordinates are rationals (`Q` mode only). -/
 namespace FV.Drv
 open FV FV.RectSearch
@@ -51,6 +53,50 @@ def assignOf (cells : List (Nat × Nat)) (sels : List Nat) : Assign Rat
   | .sel b => sels.contains b
   | _ => false
 
+/-! ### `rect_io.select_box` / `rect.area` (both scalar modes) -/
+section IO
+open FV.RectIO
+variable {α : Type} [Add α] [Sub α] [Mul α] [Div α] [LT α] [DecidableLT α] [NatCast α] [ScalarIO α] [TruncInt α]
+
+def pIRect : P (IRect α) := do
+  let xc ← pSc; let yc ← pSc; let w ← pSc; let h ← pSc
+  let f ← tok
+  match f with
+  | "N" => pure ⟨xc, yc, w, h, none⟩
+  | "M" => do
+      let ds ← pList (pList (do let k ← tok; let v ← pSc; pure (k, v)))
+      pure ⟨xc, yc, w, h, some ds⟩
+  | _ => failure
+
+def showBoxes (l : List (Cell α × α)) : String :=
+  s!"{l.length}" ++ String.join (l.map fun b => s!" | {sc b.1.x0} {sc b.1.y0} {sc b.1.x1} {sc b.1.y1} {sc b.2}")
+
+/-- `selbox <sel> <n> <irect>*` and `areas <factor> <n> (x0 y0 x1 y1 p)*` -/
+def ioOp (op : String) (args : List String) : Option String :=
+  match op with
+  | "selbox" => (runP (do let sel ← tok; let l ← pList (pIRect (α := α)); pure (sel, l)) args).map fun (sel, l) =>
+      match selectBox sel l with
+      | some r => showBoxes r
+      | none => "err:Exception"
+  | "galloc" => (runP (pList (do
+        let x ← pSc (α := α); let y ← pSc; let w ← pSc; let h ← pSc
+        let al ← pList (do let k ← tok; let v ← pSc; pure (k, v))
+        pure ((x, y, w, h), al))) args).map fun cells =>
+      -- the records `get_alloc` builds, in the wire form of `selbox`'s input
+      let recs := getAlloc cells
+      s!"{recs.length}" ++ String.join (recs.map fun r =>
+        s!" {sc r.xc} {sc r.yc} {sc r.w} {sc r.h}" ++ (match r.mods with
+          | none => " N"
+          | some ds => s!" M {ds.length}" ++ String.join (ds.map fun d =>
+              s!" {d.length}" ++ String.join (d.map fun q => s!" {q.1} {sc q.2}"))))
+  | "areas" => (runP (do
+        let f ← pNat
+        let l ← pList (do let x0 ← pSc (α := α); let y0 ← pSc; let x1 ← pSc; let y1 ← pSc; let p ← pSc; pure ((⟨x0, y0, x1, y1⟩ : Cell α), p))
+        pure (f, l)) args).map fun (f, l) =>
+      " ".intercalate (l.map fun b => toString (areaSel f b.1 b.2)) ++ " | " ++ " ".intercalate (l.map fun b => toString (areaReal f b.1))
+  | _ => none
+end IO
+
 def rectOp (op : String) (args : List String) : Option String :=
   match op with
   | "coords" => (runP (pList pCell) args).map fun ip =>
@@ -68,6 +114,25 @@ def rectOp (op : String) (args : List String) : Option String :=
         pure (k, ratio, p, cells, sels)) args).map fun (k, ratio, p, cells, sels) =>
       match solveResult p ratio k (some (assignOf cells sels)) with
       | .insat => "insat"
+      | .found cost rects => s!"found {cost}" ++ String.join (rects.map fun r => " | " ++ showBox r)
+  | "chain" => (runP (do
+        -- what `main` does between the parsed allocation and the SAT solver: select_box, definecoords, area, and the
+        -- constraints `solve` posts
+        let k ← pNat; let ratio ← pInt; let d ← pInt; let factor ← pNat; let sel ← tok
+        let ifile ← pList (pIRect (α := Rat))
+        pure (k, ratio, d, factor, sel, ifile)) args).map fun (k, ratio, d, factor, sel, ifile) =>
+      match RectIO.selectBox sel ifile with
+      | none => "err:Exception"
+      | some boxes => showConstrs (solveConstrs (RectIO.problemOf factor boxes) ratio d k)
+  | "retval" => (runP (do
+        -- the value `rect.solve` returns, from the raw answers of the SAT layer: `sm.solve()` and the dictionary `sm.model`
+        let k ← pNat; let ratio ← pInt; let p ← pProblem
+        let sat ← pBool
+        let mdl ← pList (do let nm ← tok; let x ← pInt; pure (Sat.varOfName nm, x))
+        pure (k, ratio, p, sat, mdl)) args).map fun (k, ratio, p, sat, mdl) =>
+      match RectSat.solveReturn (RectSat.pyName sc) p ratio k sat { model := mdl } with
+      | .insat => "insat"
+      | .raised => "err:Exception"
       | .found cost rects => s!"found {cost}" ++ String.join (rects.map fun r => " | " ++ showBox r)
   | "insat" => (runP (do let k ← pNat; let ratio ← pInt; let p ← pProblem; pure (k, ratio, p)) args).map
       fun (k, ratio, p) =>
